@@ -45,6 +45,14 @@ CHECKS = {
              "PAIR (they are for PUSH/PULL and the aio framework). Raw and polyamorous modes are not modelled.",
         technique="TLA+ model checking (TLC) + edge-cover replay (run-to-quiescence steps) through a harness transport",
         ref="DESIGN.md section 4, C08"),
+    "C09": dict(
+        text="TLA+ spec proto/Bus.tla (cooked and raw): per-peer busy flag and send queue, receive queue and waiters, in macro "
+             "steps; model checked for at-most-once offer per peer in order, no echo of received messages, skipping the origin pipe "
+             "named by a raw header, whole-message drops on full queues, send always succeeding, readiness; every transition "
+             "replayed on the real socket through the harness transport (driver = the mesh).",
+        note="Trusted: TLC, harness, hooks, ASan/UBSan. 2 peers, queue depths 1..2 after resizing; macro-step grain.",
+        technique="TLA+ model checking (TLC) + edge-cover replay (run-to-quiescence steps) through a harness transport",
+        ref="DESIGN.md section 4, C09"),
     "C17": dict(
         text="TLA+ spec data/Msg.tla: nng_msg as two run-length encoded byte strings plus a transcription of the nni_chunk "
              "geometry and buffer content; TLC checks refinement, in-bounds copies, capacity >= length, header <= 64 for all "
